@@ -68,6 +68,12 @@ PROTECTED = ['sigfield1', 'sigfield2', 'sigfield3', 'sigfield4', 'sigfield5', 's
              'timestamp', 'E', 'P', 'x', 'IR', 'sa', 'custom', 'ünï']
 
 
+# the consequence runs append MARK before the instruction they observe: the prefix is run again there (another clock, the
+# timestamp run_script supplies) and may end the script before the appended code - then there is nothing to observe
+MARK_KEY = b'~reached'
+MARK = bytes([C['OP_PUSH0'], 1, C['OP_WRITE_CACHE'], len(MARK_KEY)]) + MARK_KEY + b'\x01'
+
+
 def _msg(cache, flag):
     out = b''
     for i in range(1, 9):
@@ -136,9 +142,11 @@ def evaluate(script, emb):
             if info['outcome'] == 'ok' and not info['returned']:
                 for flag in (0, 0x05):
                     try:
-                        _, s3, c3 = F.run_script(script + bytes([C['OP_GET_MESSAGE'], flag]), copy.deepcopy(emb))
+                        _, s3, c3 = F.run_script(script + MARK + bytes([C['OP_GET_MESSAGE'], flag]), copy.deepcopy(emb))
                         top = s3.list()[-1] if len(s3) else None
-                        if top != _msg(before, flag):
+                        if MARK_KEY not in c3:
+                            info['consequence_unreached'] = True      # in THIS run the prefix ended the script (its own time checks see run_script's timestamp)
+                        elif top != _msg(before, flag):
                             fails.append(('consequence/message-changed', 'flag %02x: %r expected %r' % (flag, top, _msg(before, flag))))
                         for k, v in before.items():
                             if k not in c3 or not _typed_equal(c3[k], v):
@@ -151,12 +159,14 @@ def evaluate(script, emb):
                     t = before['timestamp']
                     for cst, exp in ((t, b'\xff'), (t + 1, b'\x00')):
                         enc = cst.to_bytes(max(1, (cst.bit_length() + 7) // 8), 'big')
-                        sc = script + bytes([C['OP_PUSH1'], len(enc)]) + enc + bytes([C['OP_CHECK_TIMESTAMP']])
+                        sc = script + MARK + bytes([C['OP_PUSH1'], len(enc)]) + enc + bytes([C['OP_CHECK_TIMESTAMP']])
                         try:
                             env.pin_clock(t)      # no slack involved: the check is about the cached timestamp only
-                            _, s4, _ = F.run_script(sc, copy.deepcopy(emb))
+                            _, s4, c4 = F.run_script(sc, copy.deepcopy(emb))
                             top = s4.list()[-1] if len(s4) else None
-                            if top != exp:
+                            if MARK_KEY not in c4:
+                                info['consequence_unreached'] = True  # under this clock the prefix's own time checks end the script
+                            elif top != exp:
                                 fails.append(('consequence/timestamp-check-changed', 'constraint t%+d: %r' % (cst - t, top)))
                         except BaseException as e:  # noqa
                             if isinstance(e, (KeyboardInterrupt, SystemExit)):
@@ -344,6 +354,8 @@ def _one(ctx, script, emb, case):
         ctx.count('wrote-protected-spelling')
     if info.get('returned'):
         ctx.count('returned-flag-left')
+    if info.get('consequence_unreached'):
+        ctx.count('consequence run: the prefix ended the script before the appended instruction')
     for s, d in fails:
         ctx.fail('run', s, case, d)
     if nt and len(script) < 90:
